@@ -79,12 +79,14 @@ pub struct ScBlocks {
     pub order: Vec<String>,
     pub io_channel: u16,
     pub channels: Vec<u16>,
+    /// maxMCSPDUsize of the connect response's domain parameters (0 = the usual 0xfff8)
+    pub max_pdu: u32,
 }
 
 impl Default for ScBlocks {
     fn default() -> Self {
         ScBlocks { version: 0x00080004, core_opt: 2, requested_protocols: 0, with_security: true,
-                   order: vec!["core".into(), "sec".into(), "net".into()], io_channel: 1003, channels: vec![] }
+                   order: vec!["core".into(), "sec".into(), "net".into()], io_channel: 1003, channels: vec![], max_pdu: 0 }
     }
 }
 
@@ -138,9 +140,12 @@ pub fn gcc_conference_create_response(blocks: &[u8]) -> Vec<u8> {
     v
 }
 
-pub fn mcs_connect_response_raw(user_data: &[u8]) -> Vec<u8> {
+pub fn mcs_connect_response_raw(user_data: &[u8]) -> Vec<u8> { mcs_connect_response_raw2(user_data, 0xfff8) }
+
+/// ... with the maxMCSPDUsize the server settles on (the client offers 0x420 ..= 0xffff, target 0xffff)
+pub fn mcs_connect_response_raw2(user_data: &[u8], max_pdu: u32) -> Vec<u8> {
     let mut dom = Vec::new();
-    for x in [34u32, 3, 0, 1, 0, 1, 0xfff8, 2].iter() { dom.extend(ber_uint(*x)); }
+    for x in [34u32, 3, 0, 1, 0, 1, max_pdu, 2].iter() { dom.extend(ber_uint(*x)); }
     let mut body = Vec::new();
     body.extend(ber_tlv(0x0a, &[0]));
     body.extend(ber_uint(0));
@@ -153,7 +158,7 @@ pub fn mcs_connect_response_raw(user_data: &[u8]) -> Vec<u8> {
 }
 
 pub fn mcs_connect_response(p: &ScBlocks) -> Vec<u8> {
-    x224_data(&mcs_connect_response_raw(&gcc_conference_create_response(&gcc_server_blocks(p))))
+    x224_data(&mcs_connect_response_raw2(&gcc_conference_create_response(&gcc_server_blocks(p)), if p.max_pdu == 0 { 0xfff8 } else { p.max_pdu }))
 }
 
 pub fn attach_confirm(uid: u16) -> Vec<u8> {
@@ -285,8 +290,22 @@ pub fn server_caps(variant: u8) -> Vec<Vec<u8>> {
     }
 }
 
-pub fn demand_active(share_id: [u8; 4], caps: &[Vec<u8>]) -> Vec<u8> {
-    let src = b"RDP\0";
+/// source descriptors a server may put into demand-active / deactivate-all: free text, any length
+pub fn source_descriptor(variant: u8) -> Vec<u8> {
+    match variant % 7 {
+        0 => b"RDP\0".to_vec(),
+        1 => Vec::new(),
+        2 => { let mut v: Vec<u8> = (0..31).map(|i| b'a' + (i % 26) as u8).collect(); v.extend_from_slice("\u{e9}xyz\0".as_bytes()); v }
+        3 => vec![0xff; 40],
+        4 => (0..64).map(|i| b'A' + (i % 26) as u8).collect(),
+        5 => { let mut v = vec![b'x'; 30]; v.extend_from_slice("\u{20ac}\u{20ac}\0".as_bytes()); v }
+        _ => b"MSTSC\0".to_vec(),
+    }
+}
+
+pub fn demand_active(share_id: [u8; 4], caps: &[Vec<u8>]) -> Vec<u8> { demand_active_src(share_id, caps, b"RDP\0") }
+
+pub fn demand_active_src(share_id: [u8; 4], caps: &[Vec<u8>], src: &[u8]) -> Vec<u8> {
     let capbytes: Vec<u8> = caps.iter().flat_map(|c| c.iter().copied()).collect();
     let mut b = share_id.to_vec();
     b.extend(u16le(src.len() as u16));
@@ -299,10 +318,12 @@ pub fn demand_active(share_id: [u8; 4], caps: &[Vec<u8>]) -> Vec<u8> {
     sdin(1003, &share_control(0x11, 1002, &b))
 }
 
-pub fn deactivate_all(share_id: [u8; 4]) -> Vec<u8> {
+pub fn deactivate_all(share_id: [u8; 4]) -> Vec<u8> { deactivate_all_src(share_id, &[0]) }
+
+pub fn deactivate_all_src(share_id: [u8; 4], src: &[u8]) -> Vec<u8> {
     let mut b = share_id.to_vec();
-    b.extend(u16le(1));
-    b.push(0);
+    b.extend(u16le(src.len() as u16));
+    b.extend_from_slice(src);
     sdin(1003, &share_control(0x16, 1002, &b))
 }
 
